@@ -23,18 +23,20 @@ import tomllib
 from .. import gen, tlc, treegen
 from ..common import rmtree, scratch, seed
 
-CH = {"DQ": '"', "SQ": "'", "BS": "\\", "NL": "\n", "CR": "\r", "LB": "{", "RB": "}", "N": "n", "X": "x", "HASH": "#", "AST": "\U00020BB7", "LS": "\u2028", "FF": "\x0c"}
+CH = {"DQ": '"', "SQ": "'", "BS": "\\", "NL": "\n", "CR": "\r", "LB": "{", "RB": "}", "N": "n", "X": "x", "HASH": "#", "AST": "\U00020BB7", "LS": "\u2028", "FF": "\x0c",
+      "NUL": "\x00", "CTL": "\x01"}
 SITES = [("DQ", "rse"), ("DQ", "none"), ("TDQ", "doc"), ("TDQ", "doc_rse"), ("REPR", "repr"), ("REPR", "repr_rse"), ("DQ", "repr"), ("IDENT", "sanitize"),
          ("DQFMT", "none"), ("DQF", "rse"), ("TOMLB", "none"), ("TOMLB", "rse")]
 MARK = "OPCVINJ"
 
 
-def lexer_verdicts(rep, d, rse_backslash: bool, doc_escapes: bool) -> dict:
+def lexer_verdicts(rep, d, rse_backslash: bool, doc_escapes: bool, ctl_escapes: bool) -> dict:
     from concurrent.futures import ThreadPoolExecutor
 
     def one(site):
         ctx, esc = site
-        cfg = tlc.write_cfg(d / f"lex-{ctx}-{esc}.cfg", {"Ctx": ctx, "Esc": esc, "RseBackslash": rse_backslash, "DocEscapes": doc_escapes}, ["Report"], view="View")
+        cfg = tlc.write_cfg(d / f"lex-{ctx}-{esc}.cfg", {"Ctx": ctx, "Esc": esc, "RseBackslash": rse_backslash, "DocEscapes": doc_escapes, "CtlEscapes": ctl_escapes},
+                            ["Report"], view="View")
         return site, tlc.run_tlc("Lexer.tla", cfg, workers=1, heap="1g")
 
     out = {}
@@ -52,17 +54,18 @@ def lexer_verdicts(rep, d, rse_backslash: bool, doc_escapes: bool) -> dict:
     return out
 
 
-def escaper_conformance(rep, d) -> tuple[bool, bool]:
+def escaper_conformance(rep, d) -> tuple[bool, bool, bool]:
     """Real escapers on every word <=3 over representative characters, validated against Lexer.tla's transducers by TLC."""
     gen.ensure_repo_on_path()
     import jinja2
     from openapi_python_client import utils
     env = jinja2.Environment(loader=jinja2.PackageLoader("openapi_python_client"), trim_blocks=True, lstrip_blocks=True, keep_trailing_newline=True)
     tpl = env.from_string('{% from "helpers.jinja" import safe_docstring %}{{ safe_docstring(c) }}')
-    classes = ["DQ", "SQ", "BS", "NL", "LB", "N", "X", "AST", "LS", "FF"]
+    classes = ["DQ", "SQ", "BS", "NL", "LB", "N", "X", "AST", "LS", "FF", "NUL", "CTL"]
     # which primitive is in the tree? (decides the constants of the model: the model follows the code, the LAWS do not)
     rse_bs = utils.remove_string_escapes("\\") == "\\\\"
     doc_esc = '\\"' in tpl.render(c='a"""b')
+    ctl_esc = utils.remove_string_escapes("\x00") != "\x00"
     lines = []
     for k in range(0, 4):
         for w in itertools.product(classes, repeat=k):
@@ -70,7 +73,7 @@ def escaper_conformance(rep, d) -> tuple[bool, bool]:
             rse = utils.remove_string_escapes(s)
             lines.append({"tid": len(lines) + 1, "w": list(w), "rse": [_cls(ch) for ch in rse], "san_len": len(utils.sanitize(s))})
     (d / "esc.ndjson").write_text("\n".join(json.dumps(x) for x in lines) + "\n")
-    cfg = tlc.write_cfg(d / "lextrace.cfg", {"Ctx": "DQ", "Esc": "rse", "RseBackslash": rse_bs, "DocEscapes": doc_esc}, spec="TSpec", post="Post")
+    cfg = tlc.write_cfg(d / "lextrace.cfg", {"Ctx": "DQ", "Esc": "rse", "RseBackslash": rse_bs, "DocEscapes": doc_esc, "CtlEscapes": ctl_esc}, spec="TSpec", post="Post")
     res = tlc.run_tlc("LexerTrace.tla", cfg, workers=1, env={"TRACE_FILE": str(d / "esc.ndjson")}, timeout=900)
     rep.tlc(res)
     post = [x for x in res.printed if isinstance(x, dict) and "nonconforming" in x]
@@ -92,7 +95,7 @@ def escaper_conformance(rep, d) -> tuple[bool, bool]:
             rep.count(1)
             if not ok:
                 rep.violate(f"C05/safe-docstring/breaks-out/{'+'.join(sorted(set(w)))}", f"safe_docstring({s!r}) renders {lit!r}, which is not a single string literal", word=list(w))
-    return rse_bs, doc_esc
+    return rse_bs, doc_esc, ctl_esc
 
 
 def _cls(ch: str) -> str:
@@ -312,7 +315,7 @@ def payloads(cex: dict, quick: bool, rnd) -> list[tuple[str, str]]:
     for k in (1, 2):
         words |= set(itertools.product(classes, repeat=k))
     # characters outside the BMP, U+2028 and form feed: alone and next to the delimiters
-    for sp in ("AST", "LS", "FF"):
+    for sp in ("AST", "LS", "FF", "NUL", "CTL"):
         words |= {(sp,), (sp, "DQ"), ("BS", sp), ("X", sp, "X")}
     for site, laws in cex.items():
         for law, h in laws.items():
@@ -408,14 +411,15 @@ def run(rep) -> None:
     rnd = random.Random(seed() * 1087 + 5)
     d = scratch("c05-")
     try:
-        rse_bs, doc_esc = escaper_conformance(rep, d)
+        rse_bs, doc_esc, ctl_esc = escaper_conformance(rep, d)
         rep.extra["primitive_escapes_backslash"] = rse_bs
         rep.extra["docstring_macro_escapes"] = doc_esc
-        cex = lexer_verdicts(rep, d, rse_bs, doc_esc)
+        rep.extra["primitive_escapes_control_characters"] = ctl_esc
+        cex = lexer_verdicts(rep, d, rse_bs, doc_esc, ctl_esc)
         rep.extra["lexer_counterexamples"] = {f"{c}/{e}": v for (c, e), v in cex.items()}
         pl = payloads(cex, quick, rnd)
         if quick:
-            must = [p for p in pl if p[0].startswith("composite") or p[0] in ("DQ", "SQ", "BS", "NL", "LB", "BS+DQ", "DQ+DQ+DQ", "BS+DQ+DQ+DQ", "X+BS", "DQ+NL", "BS+NL", "HASH", "SQ+SQ+SQ", "LB+X+RB", "BS+BS+DQ", "AST", "LS", "FF", "AST+DQ", "BS+AST")]
+            must = [p for p in pl if p[0].startswith("composite") or p[0] in ("DQ", "SQ", "BS", "NL", "LB", "BS+DQ", "DQ+DQ+DQ", "BS+DQ+DQ+DQ", "X+BS", "DQ+NL", "BS+NL", "HASH", "SQ+SQ+SQ", "LB+X+RB", "BS+BS+DQ", "AST", "LS", "FF", "AST+DQ", "BS+AST", "NUL", "CTL", "BS+NUL", "CTL+DQ")]
             rest = [p for p in pl if p not in must]
             pl = must + rnd.sample(rest, 14)
         jobs, meta = [], []
@@ -435,7 +439,7 @@ def run(rep) -> None:
         # field that is ignored today is found without naming it
         mx = maximal_document()
         gslots = sorted(set(string_slots(mx)), key=str)
-        core = [p for p in pl if p[0] in ("DQ+DQ+DQ", "BS+DQ", "X+BS", "NL", "composite-fstring", "composite-docstring", "DQ")]
+        core = [p for p in pl if p[0] in ("DQ+DQ+DQ", "BS+DQ", "X+BS", "NL", "composite-fstring", "composite-docstring", "DQ", "NUL", "CTL")]
         if not quick:
             core = core + rnd.sample([p for p in pl if p not in core], 10)
         gjobs, gmeta = [], []
